@@ -69,6 +69,8 @@ def gen_cfg(r):
         c["default_timed_enable_ms"] = r.choice([10, 50, 200]) if (wild or "max_hold_duration" not in c) else 0
     if r.random() < 0.1:
         c["pulse_with_timed_enable"] = True
+    if r.random() < 0.25:
+        c["default_pulse_ms"] = "machine.kick"      # operator-adjustable default: a template over a machine variable
     return c
 
 
@@ -92,8 +94,10 @@ def gen_op(r):
         return ["disable", r.choice(["api", "event"])]
     if k < 0.8:
         return ["player", r.choice(["pulse", "enable", "disable"])]
-    if k < 0.86:
+    if k < 0.84:
         return ["autofire", r.choice(["enable", "disable"])]
+    if k < 0.9:
+        return ["setvar", r.choice([5, 10, 20, 40, 60, 120, 250, 300, -5, 0])]
     return ["advance", r.choice([1, 1, 2, 3, 8, 16])]     # eighths of a second
 
 
@@ -106,7 +110,8 @@ def yaml_val(v):
 
 
 def build_config(cfg, player, af):
-    lines = ["switches:", "  s_af:", "    number: 7", "coils:", "  c0:", "    number: 1"]
+    lines = ["machine_vars:", "  kick:", "    initial_value: 20", "    value_type: int", "    persist: false",
+             "switches:", "  s_af:", "    number: 7", "coils:", "  c0:", "    number: 1"]
     for k, v in cfg.items():
         lines.append("    %s: %s" % (k, yaml_val(v)))
     lines += ["    pulse_events: ev_pulse", "    enable_events: ev_enable", "    disable_events: ev_disable",
@@ -282,6 +287,10 @@ class Run:
             elif kind == "autofire":
                 m.events.post("af_on" if op[1] == "enable" else "af_off")
                 self.vm.run()
+            elif kind == "setvar":
+                m.variables.set_machine_var("kick", op[1])
+                for _ in range(4):      # the template's subscription future and its done-callback need a few loop turns
+                    self.vm.run()
             return "ok"
         except BaseException as e:  # a refusal (or a crash) - the machine may be unusable afterwards
             self.dead = kind not in ("pulse", "enable", "timed_enable", "disable") or op[1] != "api"
@@ -432,11 +441,11 @@ def unpv(t):
 
 
 def tok_op(op):
-    return [op[0]] + [x if (i == 0 and op[0] not in ("advance",) and isinstance(x, str)) else pv(x) for i, x in enumerate(op[1:])]
+    return [op[0]] + [x if (i == 0 and op[0] not in ("advance", "setvar") and isinstance(x, str)) else pv(x) for i, x in enumerate(op[1:])]
 
 
 def untok_op(t):
-    return [t[0]] + [x if (i == 0 and t[0] not in ("advance",)) else unpv(x) for i, x in enumerate(t[1:])]
+    return [t[0]] + [x if (i == 0 and t[0] not in ("advance", "setvar")) else unpv(x) for i, x in enumerate(t[1:])]
 
 
 def run_case(ctx, cfg, player, af, ops, model, r, sample=True):
@@ -463,6 +472,10 @@ def run_case(ctx, cfg, player, af, ops, model, r, sample=True):
             ctx.count("res_" + res.split(":")[0])
             if op[0] in ("player", "autofire"):
                 synced = False       # coil_player / autofire glue is not in the Driver model: oracle only from here on
+            if op[0] == "setvar":
+                if model is not None and not run.dead:
+                    model.ask("cfg " + cfg_tokens(run.coil))     # the templated default changed: new environment
+                continue
             if model is not None and synced:
                 line = "op " + " ".join(tok_op(op))
                 ans = model.ask(line)
@@ -520,6 +533,9 @@ def gen_timer_case(r):
         cfg["default_hold_power"] = r.choice([0.25, 0.5])
     if r.random() < 0.2:
         cfg["max_pulse_ms"] = 1000
+    if r.random() < 0.2:
+        cfg["default_pulse_ms"] = "machine.kick"
+        cfg["max_pulse_ms"] = r.choice([30, 100])
     ops = []
     for _ in range(r.randint(4, 12)):
         k = r.random()
@@ -531,6 +547,8 @@ def gen_timer_case(r):
             ops.append(["disable", r.choice(["api", "event"])])
         elif k < 0.7:
             ops.append(["timed_enable", "api", r.choice([10, 100]), None, None, None])
+        elif k < 0.75 and "default_pulse_ms" in cfg:
+            ops.append(["setvar", r.choice([5, 20, 40, 250, 500])])
         else:
             ops.append(["advance", r.choice([1, 1, 2, 2, 3, 4, 8])])
     return cfg, gen_player(r), {}, ops
